@@ -4,27 +4,32 @@ EXTENDS PortSelection
 CONSTANTS PNames, RNames, Side       \* Side: "provides" | "requires" | "both"
 Unknown == "zz"
 
-VARIABLES prov, req, P, R, Inj
-vars == <<prov, req, P, R, Inj>>
+VARIABLES prov, req, P, R, Inj, mc        \* mc: the provides port configured as multi-client, or ""
+vars == <<prov, req, P, R, Inj, mc>>
 
 PSCs(Names) == [sts : Selections(Names), mts : Selections(Names)]
 Fixed == [sts |-> Wild("ALL"), mts |-> Wild("NONE")]
 
 Init ==
-  CASE Side = "provides" -> /\ P \in SUBSET PNames /\ prov \in PSCs(PNames \cup {Unknown, "r"})
+  CASE Side = "provides" -> /\ P \in SUBSET PNames /\ prov \in PSCs(PNames \cup {Unknown, "r"}) /\ mc \in {"", "a"}
                             /\ R \in {{}, {"r"}} /\ Inj = {} /\ req \in {Fixed, [sts |-> Wild("NONE"), mts |-> Wild("ALL")]}
     [] Side = "requires" -> /\ \E RI \in SUBSET RNames : \E I \in SUBSET RI : R = RI \ I /\ Inj = I
                             /\ req \in PSCs(RNames \cup {Unknown, "p"})
-                            /\ P \in {{}, {"p"}} /\ prov = Fixed
+                            /\ P \in {{}, {"p"}} /\ prov = Fixed /\ mc = ""
     [] Side = "both"     -> /\ P \in SUBSET PNames /\ prov \in PSCs(PNames \cup {Unknown})
                             /\ \E RI \in SUBSET RNames : \E I \in SUBSET RI : R = RI \ I /\ Inj = I
-                            /\ req \in PSCs(RNames \cup {Unknown})
+                            /\ req \in PSCs(RNames \cup {Unknown}) /\ mc = ""
 Next == FALSE
 Spec == Init /\ [][Next]_vars
 
 Law == C03Law(prov, req, P, R, Inj)
 
-Emit == PrintT(ToJson([prov |-> prov, req |-> req, P |-> P, R |-> R, Inj |-> Inj,
-                       outcome |-> Outcome(prov, req, P, R, Inj), verdict |-> Verdict(prov, req, P, R, Inj),
+\* a multi-client setting is only valid on an existing provides port that ends up MTS; C03 does not list these
+\* rejections, so they are allowed either way - but an accepted configuration must still assign what C03 says
+McRejected == mc # "" /\ Outcome(prov, req, P, R, Inj).k = "assign" /\ (mc \notin P \/ Assignment(prov, req, P, R)[mc] # "MTS")
+VerdictMc == IF MustReject(prov, req, P, R, Inj) THEN "must-reject"
+             ELSE IF McRejected THEN "either" ELSE Verdict(prov, req, P, R, Inj)
+Emit == PrintT(ToJson([prov |-> prov, req |-> req, P |-> P, R |-> R, Inj |-> Inj, mc |-> mc,
+                       outcome |-> Outcome(prov, req, P, R, Inj), verdict |-> VerdictMc,
                        f |-> Assignment(prov, req, P, R)]))
 =============================================================================
